@@ -198,6 +198,23 @@ def search_scale_variation(chk, r, n):
         except Exception as e:  # noqa
             chk.search_case("scale_variation_two_grids", False, what=f"{name}: {type(e).__name__}: {e}"[:200], data=dict(degree=deg))
             continue
+        # a third grid with as many nodes as the fine one: every second node (the coarse ones) kept,
+        # the others moved - same size, different basis
+        moved = list(fine)
+        for m_ in range(1, len(moved) - 1, 2):
+            moved[m_] = float(fine[m_] ** 0.7 * fine[m_ + 1] ** 0.3)
+        try:
+            oM = yadism.run_yadism(t, cards.obs({name: pts}, interpolation_xgrid=moved, **kw))
+        except Exception as e:  # noqa
+            chk.search_case("scale_variation_two_grids", False, what=f"{name} degree={deg}: run on a grid of equal size fails after the previous run: {type(e).__name__}: {e}"[:240], data=dict(degree=deg))
+            continue
+        for j, x in enumerate(xs):
+            for xiF in (2.0, 0.5):
+                m_val = predict(oM[name][j], oM, pdf, xiF=xiF)
+                f_val = predict(oF[name][j], oF, pdf, xiF=xiF)
+                relm = abs(m_val - f_val) / max(abs(m_val), abs(f_val), 1e-300)
+                dm = dict(obs=name, degree=deg, x=x, xiF=xiF, refined=f_val, same_size_other_nodes=m_val, rel=relm)
+                chk.search_case("scale_variation_two_grids", relm <= 1e-6, what=f"{name} degree={deg} x={x:.5g} xiF={xiF}: refined grid {f_val} vs a grid of the same size with other nodes {m_val} (rel {relm:.2e})", data=dm, nontrivial=abs(f_val) > 0)
         for j, x in enumerate(xs):
             for xiF in (2.0, 0.5):
                 a, b = predict(oC[name][j], oC, pdf, xiF=xiF), predict(oF[name][j], oF, pdf, xiF=xiF)
@@ -227,10 +244,14 @@ def search_refinement(chk, r, n):
         Q2 = 20.0
         kw = dict(prDIS=proc, ProjectileDIS="neutrino" if proc == "CC" else "electron")
         vals = []
-        for N, deg in ((12, 3), (24, 3), (48, 3), (48, 4)):
-            g = cards.mixed_grid(N // 2, N - N // 2, 1e-3, 0.1)
-            o = yadism.run_yadism(cards.theory(PTO=pto), cards.obs({name: [dict(x=x, Q2=Q2)]}, interpolation_xgrid=g, interpolation_polynomial_degree=deg, **kw))
-            vals.append(predict(o[name][0], o, pdf))
+        try:
+            for N, deg in ((12, 3), (24, 3), (48, 3), (48, 4)):
+                g = cards.mixed_grid(N // 2, N - N // 2, 1e-3, 0.1)
+                o = yadism.run_yadism(cards.theory(PTO=pto), cards.obs({name: [dict(x=x, Q2=Q2)]}, interpolation_xgrid=g, interpolation_polynomial_degree=deg, **kw))
+                vals.append(predict(o[name][0], o, pdf))
+        except Exception as e:  # noqa
+            chk.search_case("refinement_converges", False, what=f"{name} PTO={pto} x={x}: {type(e).__name__}: {e}"[:200], data=dict(obs=name, x=x))
+            continue
         ref = vals[-1]
         e = [abs(v - ref) / abs(ref) for v in vals[:-1]]
         ok = e[0] <= 0.1 and e[1] <= 0.5 * e[0] + 1e-6 and e[2] <= 0.5 * e[1] + 1e-6 and e[2] <= 1e-3
@@ -254,7 +275,11 @@ def search_node_displacement(chk, r, n):
         name = r.choice(["F2_light", "F3_light", "FL_light"])
         proc = "CC" if name.startswith("F3") else "NC"
         pto = 1 if name.startswith("FL") else i % 2
-        o = yadism.run_yadism(cards.theory(PTO=pto), cards.obs({name: [dict(x=x, Q2=30.0) for x in pts]}, interpolation_xgrid=g, interpolation_polynomial_degree=deg, interpolation_is_log=log, prDIS=proc, ProjectileDIS="neutrino" if proc == "CC" else "electron"))
+        try:
+            o = yadism.run_yadism(cards.theory(PTO=pto), cards.obs({name: [dict(x=x, Q2=30.0) for x in pts]}, interpolation_xgrid=g, interpolation_polynomial_degree=deg, interpolation_is_log=log, prDIS=proc, ProjectileDIS="neutrino" if proc == "CC" else "electron"))
+        except Exception as e:  # noqa
+            chk.search_case("node_equals_displaced", False, what=f"{name} degree={deg} node #{k}: {type(e).__name__}: {e}"[:200], data=dict(obs=name, degree=deg, node=node))
+            continue
         v = [predict(o[name][j], o, pdf) for j in range(len(pts))]
         sc = max(abs(x) for x in v)
         jump = max(abs(v[j] - v[0]) for j in range(1, len(pts) - 2)) / sc
@@ -263,6 +288,41 @@ def search_node_displacement(chk, r, n):
         moves = abs(s3) < 1e-9 * sc or abs(s5 - s3) <= 0.2 * abs(s3) + 1e-3 * sc
         d = dict(obs=name, PTO=pto, degree=deg, log=log, node_index=k, node=node, values=v, relative_jump=jump, slope_1e5=s5, slope_1e3=s3)
         chk.search_case("node_equals_displaced", jump <= 1e-6 and moves, what=f"{name} PTO={pto} degree={deg} log={log} node #{k} = {node}: jump {jump:.2e}; slopes from 1e-5 / 1e-3 displacement {s5:.4g} / {s3:.4g}", data=d, sample=d if k == 5 else None, nontrivial=True)
+
+
+def search_tmc_node_crossing(chk, r, n):
+    """with target-mass corrections the integrals start at the Nachtmann variable xi: when xi crosses a
+    grid node the prediction must not jump"""
+    import yadism
+
+    pdf = cards.ToyPDF()
+    for i in range(n):
+        deg = [3, 4, 2][i % 3]
+        tmc = [3, 1][i % 2]
+        g = cards.geomspace(0.01, 1.0, 14)
+        g[-1] = 1.0
+        k = r.choice([6, 8, 10, 11])
+        Q2, M = 4.0, 0.938
+        mu = M * M / Q2
+        name = r.choice(["F2_total", "F2_light", "F3_light"]) if tmc == 3 else r.choice(["F2_total", "FL_light"])
+        proc = "CC" if name.startswith("F3") else "EM"
+        pto = 1 if name.startswith("FL") else 0
+        xs = []
+        for delta in (-1e-7, 1e-7, -1e-3, 1e-3):
+            xi = g[k] * (1 + delta)
+            xs.append(xi / (1 - mu * xi * xi))  # inverse of xi(x)
+        try:
+            o = yadism.run_yadism(cards.theory(PTO=pto, TMC=tmc, MP=M), cards.obs({name: [dict(x=float(x), Q2=Q2) for x in xs]}, interpolation_xgrid=g, interpolation_polynomial_degree=deg, prDIS=proc, ProjectileDIS="neutrino" if proc == "CC" else "electron"))
+        except Exception as e:  # noqa
+            chk.search_case("tmc_no_jump_when_xi_crosses_a_node", False, what=f"{name} TMC={tmc} degree={deg}: {type(e).__name__}: {e}"[:200], data=dict(obs=name, degree=deg))
+            continue
+        v = [predict(o[name][j], o, pdf) for j in range(4)]
+        sc = max(abs(x) for x in v)
+        jump = abs(v[1] - v[0]) / sc
+        slope = abs(v[3] - v[2]) / 2e-3 / sc  # relative change per unit relative displacement
+        ok = jump <= 2e-7 * max(1.0, slope) + 1e-9
+        d = dict(obs=name, TMC=tmc, degree=deg, node_index=k, node=g[k], values=v, relative_jump=jump, relative_slope=slope)
+        chk.search_case("tmc_no_jump_when_xi_crosses_a_node", ok, what=f"{name} TMC={tmc} degree={deg} Q2={Q2}: prediction jumps by {jump:.2e} (relative) when xi crosses node #{k} = {g[k]:.5g} (a displacement of 2e-7; smooth slope {slope:.3g})", data=d, sample=d if i == 0 else None)
 
 
 def run(tier):
@@ -274,6 +334,7 @@ def run(tier):
     search_two_grids(chk, r, 16 if thorough else 5, thorough)
     search_scale_variation(chk, r, 8 if thorough else 2)
     search_node_displacement(chk, r, 18 if thorough else 6)
+    search_tmc_node_crossing(chk, r, 12 if thorough else 3)
     search_refinement(chk, r, 8 if thorough else 2)
     chk.assumptions += [
         "the interpolation basis is eko's (external library): modelled by hand in Model/Interp.lean (block layout, areas, evaluate_x, is_below_x) and tied by the interp_layout / interp_basis / interp_is_below_x correspondences on random grids, degrees 1..6, both modes; eko's 2.2e-15 absolute tolerance at the left end of a basis function's first area is modelled as exact equality",
